@@ -102,6 +102,29 @@ func Main(id, level string, run func(c *Ctx) error) {
 			}
 		}
 	}
+	if c.Replay != "" {
+		// a replay re-runs the check at the seed and tier that produced the witness (drivers with a finer-grained replay,
+		// e.g. C04's single crash point, read c.Replay themselves); evidence is not rewritten by a replay
+		if b, rerr := os.ReadFile(c.Replay); rerr == nil {
+			var doc struct {
+				Seed int64  `json:"seed"`
+				Tier string `json:"tier"`
+				Key  string `json:"key"`
+			}
+			if json.Unmarshal(b, &doc) == nil {
+				if *seed < 0 && doc.Seed != 0 {
+					c.Seed = doc.Seed
+				}
+				if *tier == "" && (doc.Tier == "quick" || doc.Tier == "thorough") {
+					c.Tier = doc.Tier
+				}
+				fmt.Fprintf(os.Stderr, "replaying %s: seed=%d tier=%s, looking for violation key %q\n", c.Replay, c.Seed, c.Tier, doc.Key)
+			}
+		} else {
+			fmt.Fprintf(os.Stderr, "BROKEN: cannot read replay file: %v\n", rerr)
+			os.Exit(2)
+		}
+	}
 	c.Rand = rand.New(rand.NewSource(c.Seed*1000003 + int64(len(id))*7919 + int64(id[len(id)-1])))
 	var err error
 	c.Scratch, err = os.MkdirTemp("", "vcheck-"+id+"-")
@@ -341,7 +364,7 @@ func (c *Ctx) finish(runErr error) int {
 		fmt.Printf("BROKEN %s: run error: %v\n", c.ID, runErr)
 		return 2
 	}
-	if c.evals == 0 || len(c.distinct) < 2 {
+	if c.evals == 0 || (len(c.distinct) < 2 && c.Replay == "") { // a replay may legitimately consist of one case
 		fmt.Printf("BROKEN %s: monitors observed too little (evaluations=%d distinct_nontrivial=%d)\n", c.ID, c.evals, len(c.distinct))
 		return 2
 	}
